@@ -15,6 +15,7 @@ all of them), and its recovery cases call belsShare3 themselves.
 """
 import ctypes, itertools
 from ..core import Harness
+from ..ref import bels_tables
 from ..bee2 import errname
 from ..ref import bels as M
 
@@ -303,6 +304,9 @@ def unit_keys(ctx):
             ctx.digest(r, m, rv)
             if r != 0 or rv != 0:
                 ctx.violation("belsStdM:ret:stdm", "standard key not loaded / not valid", {"len": ln, "num": num, "ret": errname(r), "val": errname(rv)})
+            elif m != bels_tables.std_key(ln, num):
+                ctx.violation("belsStdM:value:differs-from-the-standard-table", "belsStdM does not return the key of STB 34.101.60 tables A.1-A.3",
+                              {"len": ln, "num": num, "got": m, "expected": bels_tables.std_key(ln, num)})
             lib.release()
         # the 17 standard keys of a length are pairwise distinct (sharing needs distinct moduli: with two equal ones the
         # shares of those users coincide and recovery from both is refused)
